@@ -147,3 +147,71 @@ check("C09",
       "Modelled, not verified: CPython refcount collection of proxies, FIFO transport and eventual queue, Banana serialisation; one direction of one "
       "connection.",
       "Coq invariant proof over an executable model + translated counting functions + trace validation (vm_compute) on real Brokers", "DESIGN.md 5/C09")
+
+check("C10",
+      "Theorems (Coq, 12, no hypothesis on the exception): FailureSlicer.getStateToCopy is total and every field it sends fits the byte limits "
+      "FailureConstraint enforces (type 200, value 1000, traceback 2000, each parent 200) for any class name, any message incl. text UTF-8 cannot "
+      "encode, a raising __str__, any traceback, both unsafeTracebacks settings; each field is the escaped text or a whole-character prefix + '..' "
+      "and is well-formed UTF-8; truncate (translated from call.py) never exceeds its limit; send side: a Violation at any depth writes ABORT n "
+      "CLOSE n for every open sequence, innermost first, returns to the root, keeps the connection up; for every event list a number-checking "
+      "receiver never loses sync and receives exactly the finished objects; a fault-free object sent after any history is delivered in full, "
+      "histories only shift OPEN numbers; a non-Violation exception drops the connection (the one known finding). Tie: truncate, both sides' "
+      "limits, the error handler, safe_str, elision constants and the doPop/sendAbort flags and statement orders of produce / handleSendViolation / "
+      "popSlicer / pushSlicer / childAborted are read from the AST on every run; 216 batches (wire skeleton of the caller's bytes) and 137 Failure "
+      "states (byte for byte) compared by vm_compute. Direct oracle on real Broker pairs: batches of 3-6 concurrent calls with the faulty call at "
+      "every position, 13 fault kinds, 7 exception classes x 21 message shapes, all 4 option settings: sibling results exact, connection up, "
+      "callee ran exactly the expected methods, delivered failure identifies type/parents and carries a maximal message prefix, wrapped iff types "
+      "are hidden, never a local Violation for a remote exception.",
+      "Modelled, not verified: token values abstracted to one data token on the send side; the framing-checker receiver of Send.v is stricter than "
+      "Banana.handleData (real receiver: oracle + C07); the callee's execution path (oracle only); Twisted Deferred/Failure.",
+      "Coq proof over executable models + AST translation (truncate, limits, shape facts) + vm_compute correspondence + fault-injection oracle", "DESIGN.md 5/C10")
+
+check("C17",
+      "Theorems (Coq, 14, over all programs): eventually() never runs the callable synchronously; run order = submission order incl. re-entrant "
+      "submissions (subs = rans ++ queued); exactly once when drained; a raising callable does not prevent later ones, new work waits for a later "
+      "turn; queued work always has a reactor call pending; every flush notification has pending = 0 and no callable running (full strength after "
+      "the three eventual.py repairs); Promise: a second resolve/break is refused and changes nothing, an accepted resolve leaves EVENTUAL (depends on "
+      "`_state = BROKEN` being an assignment), resolution is stable, every observer and delivery sees one outcome; OneShotObserverList single result. "
+      "Per-promise exactly-once / in-order delivery is proved as three local facts (_partial; the global accounting invariant is stated in a comment "
+      "and evaluated by the oracle). Tie: append position, swap-before-run, iteration order, try/except, _in_turn marks, flush guard, observer loop "
+      "shape, _break Assign/Compare, resolve guard, state tuples, drain order and constants are AST shape facts regenerated on every run; "
+      "src_cfg = good_cfg by reflexivity; 1890 queue + 5908 promise + 1092 observer-list programs run on the real classes one reactor call at a time "
+      "and compared (full event trace + final snapshot) with the models by vm_compute. Direct oracle with an independent expected-resolution evaluator.",
+      "Modelled, not verified: Twisted Deferred and Clock; log.err() = swallowed; the Promise model has its own FIFO with the queue model's "
+      "discipline; methods returning Deferreds and flush callbacks that call flush are not generated.",
+      "Coq proofs over all programs on models parameterised by translated shape facts + trace validation (vm_compute) of the real classes", "DESIGN.md 5/C17")
+
+check("C18",
+      "Theorems (Coq, 14, over all histories): msg always returns a number; logger-assigned numbers are exactly seq+1, seq+2, ... (strictly "
+      "increasing); right after an event its (facility, level) buffer holds at most its limit and is a suffix of old ++ [e]; no buffer ever exceeds "
+      "the largest configured limit; Subscription: |queue| <= MAX_QUEUE_SIZE, 0 <= in_flight <= MAX_IN_FLIGHT, delivered (++ queue) is a subsequence "
+      "of emitted, for any Send/Turn/Ack/Nack schedule; an incident is trigger :: sort_by_num(everything buffered) (++ up to TRAILING_EVENT_LIMIT "
+      "later events) and is recorded whatever the events contain (full strength, from the translated three-stage serialize fallback); nothing "
+      "abandoned. Tie: constants (levels, size limits, queue limits, trailing limits), Count (PyLite) and shape facts of add_event (stage order, "
+      "trim loop operator and pop side), msg's catch-all, declare_incident, incident_declared, trailing_event, finished_recording, "
+      "serialize_to_json_utf8 stages, Subscription.send / start_sending / _event_received are regenerated on every run and interpreted by the model; "
+      "180 logger histories and 223 Subscription schedules on the real classes compared step by step by vm_compute. Direct oracle: hostile kwargs "
+      "(failing repr/str, non-text keys, cycles, huge ints, deep nesting, missing format keys, odd levels/facilities), bounds after every op, every "
+      "expected incident published with trigger and buffered events and no leftovers, read-back via flogfile.get_events and LogDumper with equal "
+      "num/level/rendered message, format_message total on random event dicts.",
+      "JSON is abstracted to a measured per-event 'first stage encodable' flag plus the translated fallback structure (CPython json modelled, not "
+      "verified); one op = one call plus a full eventual turn; set_buffer_size does not trim until the next event (stated as such).",
+      "Coq proofs over an executable model interpreting translated constants/shape facts + vm_compute correspondence + hostile-input oracle", "DESIGN.md 5/C18")
+
+check("C20",
+      "Theorems (Coq, all strings): decode_furl ends in a triple, BadFURLError or ValueError; decode(encode(t,h,n)) = (t,h,n) for every decoded and "
+      "every well-formed triple, every decoded triple is well-formed; SturdyRef equality iff (tub id, name) equal, equal references hash alike, "
+      "TubRef identity = tub id; get_endpoint over any handler set / address filter ends in an endpoint or InvalidHintError (ports provably 1-5 "
+      "digits so int() cannot raise); for each of the four hint patterns a continuation-passing backtracking matcher that follows sre's order takes "
+      "<= hint_K*(|s|+1) steps on every subject, via a static cost analysis proved sound once (an_sound) and re-run by vm_compute on the regenerated "
+      "patterns -- the pre-fix (\\d+){1,5} is rejected by it and shown ~n^5; FURL matching is bounded quadratically (_partial: linear is refuted, "
+      "known finding oracle/furl-quadratic). Tie: the five pattern strings are evaluated from the module constants, parsed with re._parser and "
+      "emitted as a Coq regex AST (fail closed), with the search/match method, the 32-char cut, separators, base32 alphabet, _distinguishers tuples "
+      "and statement shapes of decode / encode / convert_legacy_hint / hint_to_endpoint / get_endpoint; match result and all group spans compared "
+      "with `re` on 4.9 k strings (exhaustive short strings behind each literal prefix, grammar + mutations incl. non-ASCII digits) and the "
+      "functions on 1 k cases with 6 handler sets by vm_compute. Oracle on the real functions: totality, round trip, identity (12.5 k pairs), "
+      "endpoint arguments, CPU-time growth on 25 adversarial families in killed-on-timeout child processes; 6 regression witnesses.",
+      "Modelled, not verified: sre's work is within a constant factor of the model's step count (CPU-time growth is measured only); \\d / str.lower / "
+      "int digit values come from the interpreter's unicodedata (regenerated each run); tor.is_non_public_numeric_address is an input of the model; "
+      "handlers run up to the endpoint constructor; ensure_str on bytes not modelled.",
+      "Coq proof over regex ASTs translated from the source (sound static cost analysis) + vm_compute correspondence against re + timing oracle", "DESIGN.md 5/C20")
